@@ -698,10 +698,17 @@ func Run(t *simkit.Tape, o *simkit.Outcome, full bool) {
 		nRecords += len(fe.records)
 		verifyFile(o, f, out, fe, single.Argv(1))
 	}
-	// unreadable or unparsable inputs do not affect the output for other files,
-	// and records appear in argument / walk order
-	if want := strings.Join(perFile, ""); want != stdout {
-		o.Violate(P, "file-set-output", "file-set-output", "stdout for the whole set is not the concatenation, in argument/walk order, of what the tool prints for each input alone\nargv=%q\nstdout=%q\nper input=%q", argv, trunc(stdout, 500), truncList(perFile, 500))
+	// unreadable or unparsable inputs do not affect the output for other files:
+	// stdout of the whole set is the per-input blocks, each once and contiguous.
+	// The statement does not fix the order of the blocks (a rewritten directory
+	// walk may visit files before sub-directories), so any order is accepted;
+	// how often it is the argument / walk order is only counted.
+	if want := strings.Join(perFile, ""); want == stdout {
+		o.Probe("blocks-in-argument-or-walk-order")
+	} else if MatchBlocks(stdout, perFile) {
+		o.Probe("blocks-in-another-order")
+	} else {
+		o.Violate(P, "file-set-output", "file-set-output", "stdout for the whole set is not made of the blocks the tool prints for each input alone (each once, contiguous, in any order)\nargv=%q\nstdout=%q\nper input=%q", argv, trunc(stdout, 500), truncList(perFile, 500))
 	}
 	if diagNeeded > 0 && stderr == "" {
 		o.Violate(P, "no-diagnostic", "no-diagnostic:set", "%d unreadable/unparsable input(s) but nothing on stderr\nargv=%q", diagNeeded, argv)
